@@ -412,6 +412,60 @@ Definition constant_counter_sb (c : N) (ci : counter_in) : bool :=
 Definition no_counter_sb (ci : counter_in) : bool :=
   negb (ci_input ci) && match ci_counts ci with [] => true | _ => false end.
 
+Fixpoint nodup_keys {B} (l : list (N * B)) : bool :=
+  match l with
+  | [] => true
+  | (k, _) :: r => match alist_find k r with Some _ => false | None => nodup_keys r end
+  end.
+
+(** * Which samples get an allocation record
+    ([ThreadAllocTallyMap::is_empty], [src/alloc.rs:497-501]; the gate
+    [if !raw_sample.alloc_info.tallies.is_empty() { alloc_info_by_sample.insert(sample_index, ..) }],
+    [src/benchmark/mod.rs:868-874]) *)
+
+(** The eight tally figures: (count, size) of grow, shrink, alloc, dealloc. *)
+Definition tallies_of_info (i : alloc_info) : list N :=
+  flat_map (fun op => [t_count (ai_tally op i); t_size (ai_tally op i)]) all_ops.
+
+(** [is_empty]: every count and every size is 0. *)
+Definition tally_row_empty (row : list N) : bool := forallb (fun x => x =? 0) row.
+Definition tallies_is_empty (i : alloc_info) : bool := tally_row_empty (tallies_of_info i).
+
+(** The infos of the raw samples, in recording order, starting at sample index
+    [k]; [m] is the map so far (a new key goes in front). *)
+Fixpoint record_alloc_infos (k : N) (infos : list alloc_info) (m : list (N * alloc_info)) : list (N * alloc_info) :=
+  match infos with
+  | [] => m
+  | i :: r => record_alloc_infos (k + 1) r (if tallies_is_empty i then m else (k, i) :: m)
+  end.
+
+Fixpoint list_eqb (l1 l2 : list N) : bool :=
+  match l1, l2 with
+  | [], [] => true
+  | a :: r1, b :: r2 => (a =? b) && list_eqb r1 r2
+  | _, _ => false
+  end.
+
+(** Specification for the allocation records of a run: [rows] = the tally
+    figures each recorded sample's timed section produced.  A sample has a
+    record iff one of its figures is not 0 (deallocation and shrink rows
+    included), the record carries exactly its figures, and there is no other
+    record. *)
+Fixpoint alloc_records_from (k : N) (rows : list (list N)) (allocs : list (N * alloc_info)) : bool :=
+  match rows with
+  | [] => true
+  | row :: r =>
+      (match alist_find k allocs with
+       | None => tally_row_empty row
+       | Some i => negb (tally_row_empty row) && list_eqb (tallies_of_info i) row
+       end) && alloc_records_from (k + 1) r allocs
+  end.
+
+Definition alloc_records_sb (rows : list (list N)) (allocs : list (N * alloc_info)) : bool :=
+  alloc_records_from 0 rows allocs &&
+  forallb (fun p => fst p <? N.of_nat (length rows)) allocs &&
+  nodup_keys allocs.
+
 (** * Admissible sorted views *)
 
 Fixpoint sorted_by_snd (l : list (N * N)) : bool :=
@@ -540,12 +594,6 @@ Definition expect_counter (n : nat) (ci : counter_in) : option bool :=
     (if (n <=? length (ci_counts ci))%nat then Some true
      else match ci_counts ci with [] => Some false | _ => None end)
   else Some (negb (length (ci_counts ci) =? 0)%nat).
-
-Fixpoint nodup_keys {B} (l : list (N * B)) : bool :=
-  match l with
-  | [] => true
-  | (k, _) :: r => match alist_find k r with Some _ => false | None => nodup_keys r end
-  end.
 
 (** The inputs the property quantifies over: a sample size of zero only with no
     samples, no u128/u64 overflow of the totals, one allocation entry per key,
